@@ -140,7 +140,7 @@ Proof.
   destruct (f x); lia.
 Qed.
 Lemma count_le_length {A} (f : A -> bool) l : count f l <= Z.of_nat (length l).
-Proof. unfold count. pose proof (filter_length_le f l). lia. Qed.
+Proof. induction l as [|x l IH]; [cbn; lia|]. rewrite count_cons. cbn [length]. destruct (f x); lia. Qed.
 
 Section Hist.
   Variable cf : cfg.
@@ -170,11 +170,9 @@ Section Hist.
     intros E Hm Ht Hv Hok.
     assert (Hok' : gh_ok T (s_gh s')).
     { eapply arr_update_ok; eauto. intros v Hin _. apply Hv; auto. }
-    destruct (arr_update_spec cf (fun _ _ => true) _ _ _ _ _ _ _ _ E) as [(-> & -> & -> & ->)|(A & dead & B & E1 & E2 & _)].
-    { repeat split; auto; apply Hv; auto. }
+    destruct (arr_update_spec cf _ _ _ _ _ _ _ _ E) as [(-> & -> & -> & ->)|(A & dead & B & E1 & E2 & LA & LD & Hins & Hh & Hw)].
+    { split; [reflexivity|]. split; [exact Hv|]. split; [exact Hok|]. split; intros; lia. }
     assert (Hvd : vals_ok (tp cf t) dead) by (intros v Hin; apply Hv; rewrite E1; apply in_or_app; right; apply in_or_app; auto).
-    assert (Hh : f_hist f' = f_hist f).
-    { destruct (arr_update_spec cf (fun _ _ => true) _ _ _ _ _ _ _ _ E) as [(_ & _ & -> & _)|(? & ? & ? & _ & _ & _ & _ & _ & Hh & _)]; auto. }
     split; auto. split.
     { intros v Hin. rewrite E2 in Hin. apply in_app_or in Hin. destruct Hin as [Hin|Hin].
       - apply Hv. rewrite E1. apply in_or_app; auto.
@@ -182,19 +180,558 @@ Section Hist.
         + apply repeat_spec in Hin. subst. split; auto. lia.
         + apply Hv. rewrite E1. apply in_or_app; right; apply in_or_app; auto. }
     split; auto. split.
-    - intros Q. destruct (arr_update_spec cf (Qk Q) _ _ _ _ _ _ _ _ E) as [(-> & -> & -> & ->)|(A' & dead' & B' & E1' & E2' & LA & LD & Hins & _ & Hw)]; [lia|].
-      (* the decompositions agree *)
-      assert (A' = A /\ dead' = dead /\ B' = B) as (-> & -> & ->).
-      { destruct (arr_update_spec cf (fun _ _ => true) _ _ _ _ _ _ _ _ E) as [(-> & -> & _)|(A2 & d2 & B2 & F1 & F2 & LA2 & LD2 & _)].
-        - destruct dead'; [|cbn in LD; lia]. cbn in E2', E1'. rewrite E1' in E1.
-          clear - E1 E2 E2' E1'. admit.
-        - admit. }
-      rewrite Hw. unfold cnt. rewrite E1, E2. rewrite !count_app, count_repeat.
+    - intros Q. rewrite Hw. unfold cnt. rewrite E1, E2. rewrite !count_app, count_repeat.
       rewrite (effs_nomark _ _ _ _ Hm Hvd). unfold eff. rewrite Hm. unfold Qk. destruct (Q (tp cf t)); lia.
-    - intros P HP. destruct (arr_update_spec cf P _ _ _ _ _ _ _ _ E) as [(-> & -> & -> & ->)|(A' & dead' & B' & E1' & _ & _ & _ & _ & _ & Hw)]; [lia|].
-      rewrite Hw. unfold eff. rewrite Hm, HP.
-      assert (effs cf P t dead' = 0); [|lia].
-      unfold effs. clear - HP Hm. induction dead' as [|v r IH]; [reflexivity|]. cbn [map]. rewrite sum_z_cons, IH.
+    - intros P HP. rewrite Hw. unfold eff. rewrite Hm, HP.
+      assert (effs cf P t dead = 0); [|lia].
+      unfold effs. clear - HP Hm. induction dead as [|v r IH]; [reflexivity|]. cbn [map]. rewrite sum_z_cons, IH.
       unfold eff. rewrite Hm, HP. destruct (is_mark v); lia.
-  Admitted.
+  Qed.
+
+  (* every value of the file has its tick among the keys of the global history *)
+  Definition VK (f : file) (s : shared) : Prop := forall v, In v (f_vals f) -> In (tp cf v) (keys (s_gh s)).
+
+  (* the relation one accepted tracker operation establishes; it is reflexive and transitive *)
+  Definition rel (t T : Z) (x y : file * shared) : Prop :=
+    f_hist (fst y) = f_hist (fst x) /\ vals_ok (tp cf t) (f_vals (fst y)) /\ gh_ok T (s_gh (snd y)) /\
+    (forall Q, wsum (Qk Q) (s_gh (snd y)) - cnt Q (fst y) = wsum (Qk Q) (s_gh (snd x)) - cnt Q (fst x)) /\
+    (forall P, (forall k, P (tp cf t) k = false) -> wsum P (s_gh (snd y)) = wsum P (s_gh (snd x))) /\
+    (forall k, In k (keys (s_gh (snd x))) -> In k (keys (s_gh (snd y)))) /\
+    (VK (fst x) (snd x) -> VK (fst y) (snd y)).
+
+  Lemma rel_refl t T f s : vals_ok (tp cf t) (f_vals f) -> gh_ok T (s_gh s) -> rel t T (f, s) (f, s).
+  Proof.
+    intros Hv Hok. split; [reflexivity|]. split; [exact Hv|]. split; [exact Hok|].
+    split; [intros; reflexivity|]. split; [intros; reflexivity|]. split; auto.
+  Qed.
+
+  Lemma rel_trans t T x y z : rel t T x y -> rel t T y z -> rel t T x z.
+  Proof.
+    intros (A1 & A2 & A3 & A4 & A5 & A6 & A7) (B1 & B2 & B3 & B4 & B5 & B6 & B7). split; [congruence|]. split; auto. split; auto.
+    split; [intros Q; rewrite B4; apply A4|]. split; [intros P HP; rewrite B5 by auto; apply A5; auto|].
+    split; auto.
+  Qed.
+
+  Lemma rel_update t T f s pos ins del f' s' :
+    arr_update cf f s t pos ins del = Ok (f', s') -> is_mark t = false -> 0 <= tp cf t <= T ->
+    vals_ok (tp cf t) (f_vals f) -> gh_ok T (s_gh s) -> rel t T (f, s) (f', s').
+  Proof.
+    intros E Hm Ht Hv Hok. destruct (arr_update_hist _ _ _ _ _ _ _ _ _ E Hm Ht Hv Hok) as (R1 & R2 & R3 & R4 & R5).
+    destruct (arr_update_keys cf _ _ _ _ _ _ _ _ E) as [K1 K2].
+    split; auto. split; auto. split; auto. split; auto. split; auto. split; auto. cbn [fst snd].
+    intros HVK v Hin.
+    destruct (arr_update_spec cf _ _ _ _ _ _ _ _ E) as [(-> & -> & -> & ->)|(A & dead & B & E1 & E2 & LA & LD & Hins & _)]; auto.
+    rewrite E2 in Hin. apply in_app_or in Hin. destruct Hin as [Hin|Hin].
+    - apply K1, HVK. rewrite E1. apply in_or_app; auto.
+    - apply in_app_or in Hin. destruct Hin as [Hin|Hin].
+      + apply repeat_spec in Hin as Hv'. subst v. apply K2; auto.
+        destruct (Z.to_nat ins) eqn:En; [destruct Hin|lia].
+      + apply K1, HVK. rewrite E1. apply in_or_app; right; apply in_or_app; auto.
+  Qed.
+
+  Lemma hm_loop_rel t T : is_mark t = false -> 0 <= tp cf t <= T ->
+    forall diffs pos pending f s f' s',
+    hm_loop cf t diffs pos pending f s = Ok (f', s') ->
+    vals_ok (tp cf t) (f_vals f) -> gh_ok T (s_gh s) -> rel t T (f, s) (f', s').
+  Proof.
+    intros Hm Ht. induction diffs as [|[op len] rest IH]; intros pos pending f s f' s' E Hv Hok; cbn [hm_loop] in E.
+    - destruct (0 <? snd pending).
+      + destruct (fst pending).
+        * destruct (arr_update cf f s t pos 0 (snd pending)) as [[f1 s1]| |] eqn:E1; try discriminate.
+          inversion E; subst. eapply rel_update; eauto.
+        * destruct (arr_update cf f s t pos (snd pending) 0) as [[f1 s1]| |] eqn:E1; try discriminate.
+          inversion E; subst. eapply rel_update; eauto.
+        * destruct (arr_update cf f s t pos 0 (snd pending)) as [[f1 s1]| |] eqn:E1; try discriminate.
+          inversion E; subst. eapply rel_update; eauto.
+      + inversion E; subst. apply rel_refl; auto.
+    - destruct op.
+      + (* DEq *)
+        destruct (0 <? snd pending).
+        * destruct (fst pending).
+          -- destruct (arr_update cf f s t pos 0 (snd pending)) as [[f1 s1]| |] eqn:E1; try discriminate.
+             pose proof (rel_update _ _ _ _ _ _ _ _ _ E1 Hm Ht Hv Hok) as R1.
+             eapply rel_trans; [exact R1|]. destruct R1 as (_ & R2 & R3 & _). eapply IH; eauto.
+          -- destruct (arr_update cf f s t pos (snd pending) 0) as [[f1 s1]| |] eqn:E1; try discriminate.
+             pose proof (rel_update _ _ _ _ _ _ _ _ _ E1 Hm Ht Hv Hok) as R1.
+             eapply rel_trans; [exact R1|]. destruct R1 as (_ & R2 & R3 & _). eapply IH; eauto.
+          -- destruct (arr_update cf f s t pos 0 (snd pending)) as [[f1 s1]| |] eqn:E1; try discriminate.
+             pose proof (rel_update _ _ _ _ _ _ _ _ _ E1 Hm Ht Hv Hok) as R1.
+             eapply rel_trans; [exact R1|]. destruct R1 as (_ & R2 & R3 & _). eapply IH; eauto.
+        * eapply IH; eauto.
+      + (* DIns *)
+        destruct (0 <? snd pending).
+        * destruct (fst pending); try discriminate.
+          -- destruct (arr_update cf f s t pos len (snd pending)) as [[f1 s1]| |] eqn:E1; try discriminate.
+             pose proof (rel_update _ _ _ _ _ _ _ _ _ E1 Hm Ht Hv Hok) as R1.
+             eapply rel_trans; [exact R1|]. destruct R1 as (_ & R2 & R3 & _). eapply IH; eauto.
+          -- destruct (arr_update cf f s t pos len (snd pending)) as [[f1 s1]| |] eqn:E1; try discriminate.
+             pose proof (rel_update _ _ _ _ _ _ _ _ _ E1 Hm Ht Hv Hok) as R1.
+             eapply rel_trans; [exact R1|]. destruct R1 as (_ & R2 & R3 & _). eapply IH; eauto.
+        * eapply IH; eauto.
+      + (* DDel *)
+        destruct (0 <? snd pending); [discriminate|]. eapply IH; eauto.
+  Qed.
 End Hist.
+
+Section Inv.
+  Variable cf : cfg.
+
+  Definition stotal (snap : list (Z * Z)) : Z := atotal (fun n : Z => n) snap.
+
+  Definition J (T : Z) (b : branch) (s : shared) (snap : list (Z * Z)) : Prop :=
+    NoDup (map fst (b_files b)) /\ NoDup (map fst snap) /\
+    (forall p, aget snap p = option_map flen (aget (b_files b) p)) /\
+    stotal snap = atotal flen (b_files b) /\
+    (forall p f, In (p, f) (b_files b) -> vals_ok cf T (f_vals f)) /\
+    gh_ok T (s_gh s) /\
+    (forall Q, wsum (Qk Q) (s_gh s) = atotal (cnt cf Q) (b_files b)) /\
+    (forall p f, In (p, f) (b_files b) -> VK cf f s).
+
+  (* nothing is booked at a tick other than the current one *)
+  Definition frame (tick : Z) (s s' : shared) : Prop :=
+    (forall P, (forall k, P tick k = false) -> wsum P (s_gh s') = wsum P (s_gh s)) /\
+    (forall k, In k (keys (s_gh s)) -> In k (keys (s_gh s'))).
+
+  Lemma frame_refl tick s : frame tick s s.
+  Proof. split; [intros P _; reflexivity|auto]. Qed.
+  Lemma frame_trans tick s1 s2 s3 : frame tick s1 s2 -> frame tick s2 s3 -> frame tick s1 s3.
+  Proof. intros [A A'] [B B']. split; [intros P HP; rewrite B by auto; apply A; auto|auto]. Qed.
+
+  Lemma vals_ok_mono T T' vals : T <= T' -> vals_ok cf T vals -> vals_ok cf T' vals.
+  Proof. intros HT Hv v Hin. destruct (Hv v Hin). split; auto. lia. Qed.
+
+  Lemma arr_update_len f s t pos ins del f' s' : arr_update cf f s t pos ins del = Ok (f', s') ->
+    flen f' = flen f - del + ins.
+  Proof.
+    intros E. destruct (arr_update_spec cf _ _ _ _ _ _ _ _ E) as [(-> & -> & -> & ->)|(A & dead & B & E1 & E2 & LA & LD & Hins & _)].
+    - lia.
+    - unfold flen. rewrite E1, E2. rewrite !app_length, repeat_length. lia.
+  Qed.
+
+  Lemma bf_wf b x : b_files (with_files b x) = x. Proof. reflexivity. Qed.
+  Lemma bt_wf b x : b_tick (with_files b x) = b_tick b. Proof. reflexivity. Qed.
+  Lemma gh_wd s x : s_gh (with_dels s x) = s_gh s. Proof. reflexivity. Qed.
+  Lemma gh_wn s x n : s_gh (with_names s x n) = s_gh s. Proof. reflexivity. Qed.
+
+  Section Step.
+    Variables (author tick : Z).
+    Hypothesis Htick : 0 <= tick < mark.
+    Hypothesis Hauthor : 0 <= author.
+    Let t := pack cf author tick.
+
+    Lemma t_nomark : is_mark t = false.
+    Proof. unfold t. rewrite is_mark_pack by (unfold mark in *; lia). apply Z.eqb_neq. lia. Qed.
+    Lemma t_tp : tp cf t = tick.
+    Proof. unfold t. apply tp_pack; unfold mark in *; lia. Qed.
+
+    Lemma update_time_norm hd s cur prev d s' : is_mark cur = false -> is_mark prev = false ->
+      update_time cf hd s cur prev d = Ok s' -> s_gh s' = sp_add (s_gh s) (tp cf cur) (tp cf prev) d.
+    Proof.
+      intros Hc Hp E. destruct (update_time_cases _ _ _ _ _ _ _ E) as [(E1 & _)|[(_ & E2 & _)|(_ & _ & E3)]]; congruence.
+    Qed.
+
+    Lemma handle_insertion_J T b s snap p n b' s' :
+      J T b s snap -> T <= tick -> b_tick b = tick -> aget snap p = None -> 0 <= n ->
+      handle_insertion cf author b s p n = Ok (b', s') ->
+      J tick b' s' (aset snap p n) /\ b_tick b' = tick /\ frame tick s s'.
+    Proof.
+      intros (J1 & J2 & J3 & J4 & J5 & J6 & J7 & J8) HT Hbt Hsn Hn E.
+      assert (Hnone : aget (b_files b) p = None).
+      { specialize (J3 p). rewrite Hsn in J3. destruct (aget (b_files b) p); [discriminate|reflexivity]. }
+      unfold handle_insertion in E. rewrite Hnone in E.
+      set (hs := if c_files cf then match aget (s_names s) p with
+                   | Some h => (Some h, s)
+                   | None => (Some (s_next s), with_fhs (with_names s (aset (s_names s) p (s_next s)) (s_next s + 1)) (aset (s_fhs s) (s_next s) []))
+                   end else (None, s)) in *.
+      assert (Hgh : s_gh (snd hs) = s_gh s).
+      { unfold hs. destruct (c_files cf); [|reflexivity]. destruct (aget (s_names s) p); reflexivity. }
+      destruct hs as [hd s1]. cbn [snd] in Hgh.
+      assert (Et : (if c_people cf =? 0 then b_tick b else pack cf author (b_tick b)) = t).
+      { unfold t. rewrite Hbt. unfold pack. destruct (c_people cf =? 0); reflexivity. }
+      rewrite Et in E.
+      destruct (update_time cf hd s1 t t n) as [s2| |] eqn:E2; try discriminate.
+      pose proof (update_time_norm _ _ _ _ _ _ t_nomark t_nomark E2) as G2. rewrite t_tp, Hgh in G2.
+      assert (Hbm : (b_tick b =? mark) = false) by (apply Z.eqb_neq; lia). rewrite Hbm in E.
+      inversion E; subst b' s'. clear E. unfold J; rewrite ?bf_wf, ?bt_wf, ?gh_wd, ?gh_wn.
+      set (newf := mkFile (repeat t (Z.to_nat n)) hd).
+      assert (Hlen : flen newf = n) by (unfold flen, newf; cbn [f_vals]; rewrite repeat_length; lia).
+      split; [|split; [exact Hbt|]].
+      - split; [apply nodup_aset; auto|]. split; [apply nodup_aset; auto|]. split.
+        { intros p'. rewrite !aget_aset. destruct (p =? p'); [cbn [option_map]; rewrite Hlen; reflexivity|apply J3]. }
+        split.
+        { unfold stotal. rewrite !atotal_aset, Hnone, Hsn. cbn [gopt]. fold (stotal snap). rewrite J4, Hlen. lia. }
+        split.
+        { intros p' f Hin. apply in_aset in Hin. destruct Hin as [Hin|Hin].
+          - injection Hin as _ E3. rewrite E3. unfold newf. cbn [f_vals]. intros v Hv. apply repeat_spec in Hv. rewrite Hv. rewrite t_nomark, t_tp. split; auto. lia.
+          - eapply vals_ok_mono; [exact HT|]. eapply J5; eauto. }
+        split.
+        { rewrite G2. destruct (gh_ok_mono T tick _ HT J6) as (K1 & K2 & K3).
+          split; [apply nodup_keys_sp_add; auto|]. split; [apply inner_le_sp_add; auto; lia|].
+          intros x Hx. apply keys_sp_add in Hx. destruct Hx as [->|Hx]; [lia|auto]. }
+        split.
+        { intros Q. rewrite G2, wsum_sp_add, J7, atotal_aset, Hnone. cbn [gopt]. unfold Qk.
+          unfold cnt, newf. cbn [f_vals]. rewrite count_repeat, t_tp. destruct (Q tick); lia. }
+        intros p' f Hin v Hv. rewrite gh_wd, G2. apply keys_sp_add. apply in_aset in Hin. destruct Hin as [Hin|Hin].
+        { injection Hin as _ E3. rewrite E3 in Hv. unfold newf in Hv. cbn [f_vals] in Hv.
+          apply repeat_spec in Hv. rewrite Hv, t_tp. left; reflexivity. }
+        right. eapply J8; eauto.
+      - split; [intros P HP; rewrite gh_wd, G2, wsum_sp_add, HP; lia|].
+        intros k Hk. rewrite gh_wd, G2. apply keys_sp_add. auto.
+    Qed.
+
+    Lemma handle_deletion_J T b s snap p n b' s' :
+      J T b s snap -> T <= tick -> b_tick b = tick -> aget snap p = Some n ->
+      handle_deletion cf author b s p n = Ok (b', s') ->
+      J tick b' s' (adel snap p) /\ b_tick b' = tick /\ frame tick s s'.
+    Proof.
+      intros (J1 & J2 & J3 & J4 & J5 & J6 & J7 & J8) HT Hbt Hsn E.
+      pose proof (J3 p) as Hp. rewrite Hsn in Hp. destruct (aget (b_files b) p) as [f|] eqn:Ef; [|discriminate].
+      cbn in Hp. inversion Hp as [Hfl]. clear Hp.
+      unfold handle_deletion in E. rewrite Ef in E.
+      assert (Hbm : (b_tick b =? mark) = false) by (apply Z.eqb_neq; lia). rewrite Hbm in E. cbn [andb] in E.
+      rewrite Hbt in E. fold t in E.
+      set (s1 := with_dels s (aset (s_dels s) p true)) in *.
+      destruct (arr_update cf f s1 t 0 0 n) as [[f2 s2]| |] eqn:E2; try discriminate.
+      inversion E; subst b' s'. clear E. unfold J; rewrite ?bf_wf, ?bt_wf, ?gh_wd, ?gh_wn.
+      assert (Hvf : vals_ok cf (tp cf t) (f_vals f)).
+      { rewrite t_tp. eapply vals_ok_mono; [exact HT|]. eapply J5. apply aget_in; eauto. }
+      assert (Hok1 : gh_ok tick (s_gh s1)) by (apply (gh_ok_mono T); auto).
+      assert (Htt : 0 <= tp cf t <= tick) by (rewrite t_tp; lia).
+      destruct (rel_update cf t tick f s1 0 0 n f2 s2 E2 t_nomark Htt Hvf Hok1) as (R1 & R2 & R3 & R4 & R5 & R6 & R7).
+      cbn [fst snd] in *.
+      pose proof (arr_update_len _ _ _ _ _ _ _ _ E2) as Hl2.
+      assert (Hf2 : f_vals f2 = []).
+      { unfold flen in *. destruct (f_vals f2); [reflexivity|]. cbn [length] in Hl2. lia. }
+      split; [|split; [exact Hbt|]].
+      - split; [apply nodup_adel; auto|]. split; [apply nodup_adel; auto|]. split.
+        { intros p'. rewrite !aget_adel by auto. destruct (p =? p'); [reflexivity|apply J3]. }
+        split.
+        { unfold stotal. rewrite !atotal_adel, Ef, Hsn. cbn [gopt]. fold (stotal snap). rewrite J4. lia. }
+        split.
+        { intros p' f' Hin. apply in_adel in Hin. eapply vals_ok_mono; [exact HT|]. eapply J5; eauto. }
+        split; [exact R3|].
+        split; [|intros p' f' Hin v Hv; rewrite gh_wn; apply R6; apply in_adel in Hin; eapply J8; eauto].
+        intros Q. specialize (R4 Q). replace (cnt cf Q f2) with 0 in R4 by (unfold cnt; rewrite Hf2; reflexivity).
+        rewrite atotal_adel, Ef. cbn [gopt]. change (s_gh s1) with (s_gh s) in R4. rewrite <- J7. lia.
+      - split; [intros P HP; rewrite gh_wn; rewrite t_tp in R5; rewrite (R5 P HP); reflexivity|].
+        intros k Hk. rewrite gh_wn. apply R6. exact Hk.
+    Qed.
+
+    Lemma handle_modification_J T b s snap p o n diffs b' s' :
+      J T b s snap -> T <= tick -> b_tick b = tick ->
+      (aget snap p = Some o \/ aget snap p = None) -> 0 <= n ->
+      handle_modification cf author b s p o n diffs = Ok (b', s') ->
+      J tick b' s' (aset snap p n) /\ b_tick b' = tick /\ frame tick s s'.
+    Proof.
+      intros HJ HT Hbt Hsn Hn E. unfold handle_modification in E.
+      assert (Hbm : (b_tick b =? mark) = false) by (apply Z.eqb_neq; lia). rewrite Hbm in E.
+      destruct HJ as (J1 & J2 & J3 & J4 & J5 & J6 & J7 & J8).
+      destruct (aget (b_files b) p) as [f|] eqn:Ef.
+      - pose proof (J3 p) as Hp. rewrite Ef in Hp. cbn in Hp.
+        destruct (negb (Z.of_nat (length (f_vals f)) =? o)); [discriminate|].
+        rewrite Hbt in E. fold t in E.
+        destruct (hm_loop cf t diffs 0 (DEq, 0) f s) as [[f2 s2]| |] eqn:E2; try discriminate.
+        destruct (negb (Z.of_nat (length (f_vals f2)) =? n)) eqn:En; [discriminate|].
+        apply negb_false_iff, Z.eqb_eq in En.
+        inversion E; subst b' s'. clear E. unfold J; rewrite ?bf_wf, ?bt_wf.
+        assert (Hvf : vals_ok cf (tp cf t) (f_vals f)).
+        { rewrite t_tp. eapply vals_ok_mono; [exact HT|]. eapply J5. apply aget_in; eauto. }
+        assert (Hok1 : gh_ok tick (s_gh s)) by (apply (gh_ok_mono T); auto).
+        assert (Htt : 0 <= tp cf t <= tick) by (rewrite t_tp; lia).
+        destruct (hm_loop_rel cf t tick t_nomark Htt _ _ _ _ _ _ _ E2 Hvf Hok1) as (R1 & R2 & R3 & R4 & R5 & R6 & R7).
+        cbn [fst snd] in *.
+        split; [|split; [exact Hbt|]].
+        + split; [apply nodup_aset; auto|]. split; [apply nodup_aset; auto|]. split.
+          { intros p'. rewrite !aget_aset. destruct (p =? p'); [cbn [option_map]; unfold flen; rewrite En; reflexivity|apply J3]. }
+          split.
+          { unfold stotal. rewrite !atotal_aset, Ef, Hp. cbn [gopt option_map]. fold (stotal snap). rewrite J4.
+            unfold flen in *. lia. }
+          split.
+          { intros p' f' Hin. apply in_aset in Hin. destruct Hin as [Hin|Hin].
+            - injection Hin as _ E3. rewrite E3. rewrite <- t_tp. exact R2.
+            - eapply vals_ok_mono; [exact HT|]. eapply J5; eauto. }
+          split; [exact R3|]. split.
+          { intros Q. rewrite atotal_aset, Ef. cbn [gopt]. specialize (R4 Q). rewrite <- J7. lia. }
+          intros p' f' Hin. apply in_aset in Hin. destruct Hin as [Hin|Hin].
+          { injection Hin as _ E3. rewrite E3. apply R7. eapply J8. apply aget_in; eauto. }
+          intros v Hv. apply R6. eapply J8; eauto.
+        + split; [intros P HP; rewrite t_tp in R5; apply R5; auto|exact R6].
+      - assert (Hs : aget snap p = None).
+        { specialize (J3 p). rewrite Ef in J3. exact J3. }
+        apply (handle_insertion_J T b s snap p n b' s'); auto.
+        split; [|split; [|split; [|split; [|split; [|split; [|split]]]]]]; assumption.
+    Qed.
+
+    Lemma handle_changes_J : forall chs T b s snap b' s',
+      J T b s snap -> T <= tick -> b_tick b = tick -> changes_pre snap chs = true ->
+      handle_changes cf author chs b s = Ok (b', s') ->
+      J tick b' s' (fold_left apply_change chs snap) /\ b_tick b' = tick /\ frame tick s s'.
+    Proof.
+      induction chs as [|ch rest IH]; intros T b s snap b' s' HJ HT Hbt Hpre E.
+      - cbn in E. injection E as <- <-. cbn [fold_left]. split; [|split; [auto|apply frame_refl]].
+        destruct HJ as (J1 & J2 & J3 & J4 & J5 & J6 & J7 & J8).
+        split; [exact J1|]. split; [exact J2|]. split; [exact J3|]. split; [exact J4|].
+        split; [intros p0 f0 Hin; eapply vals_ok_mono; [exact HT|]; eapply J5; eauto|].
+        split; [apply (gh_ok_mono T tick _ HT J6)|]. split; [exact J7|exact J8].
+      - cbn [changes_pre] in Hpre. apply andb_prop in Hpre. destruct Hpre as [Hp1 Hp2].
+        cbn [handle_changes] in E. cbn [fold_left].
+        assert (Hstep : exists b1 s1, (match ch with
+                  | CInsert p n => handle_insertion cf author b s p n
+                  | CDelete p n => handle_deletion cf author b s p n
+                  | CModify p o n d => handle_modification cf author b s p o n d end) = Ok (b1, s1) /\
+                  handle_changes cf author rest b1 s1 = Ok (b', s')).
+        { destruct (match ch with CInsert p n => _ | CDelete p n => _ | CModify p o n d => _ end) as [[b1 s1]| |]; try discriminate. eauto. }
+        destruct Hstep as (b1 & s1 & E1 & E2).
+        assert (Hone : J tick b1 s1 (apply_change snap ch) /\ b_tick b1 = tick /\ frame tick s s1).
+        { destruct ch as [p n|p n|p o n d]; cbn [change_pre apply_change] in *.
+          - apply andb_prop in Hp1. destruct Hp1 as [Ha Hb].
+            eapply handle_insertion_J; eauto; [|lia]. destruct (aget snap p); [discriminate|reflexivity].
+          - eapply handle_deletion_J; eauto. destruct (aget snap p); cbn in Hp1; [|discriminate].
+            apply Z.eqb_eq in Hp1. congruence.
+          - apply andb_prop in Hp1. destruct Hp1 as [Ha Hb].
+            eapply handle_modification_J; eauto; [|lia].
+            apply orb_prop in Ha. destruct Ha as [Ha|Ha]; destruct (aget snap p); cbn in Ha; try discriminate; auto.
+            apply Z.eqb_eq in Ha. left; congruence. }
+        destruct Hone as (HJ1 & Hb1 & F1).
+        destruct (IH tick b1 s1 _ b' s' HJ1 (Z.le_refl _) Hb1 Hp2 E2) as (HJ2 & Hb2 & F2).
+        split; auto. split; auto. eapply frame_trans; eauto.
+    Qed.
+  End Step.
+End Inv.
+
+Section Run.
+  Variable cf : cfg.
+
+  Lemma lin_wf_cons T snap c r : lin_wf T snap (c :: r) = true ->
+    T <= lc_tick c /\ lc_tick c < mark /\ 0 <= lc_author c /\ changes_pre snap (lc_changes c) = true /\
+    lin_wf (lc_tick c) (snap_commit snap c) r = true.
+  Proof.
+    cbn [lin_wf]. intros Hwf. apply andb_prop in Hwf. destruct Hwf as [Hwf W5].
+    apply andb_prop in Hwf. destruct Hwf as [Hwf W4]. apply andb_prop in Hwf. destruct Hwf as [Hwf W3].
+    apply andb_prop in Hwf. destruct Hwf as [W1 W2]. repeat split; auto; lia.
+  Qed.
+
+  Lemma J_files T b1 b2 s snap : b_files b1 = b_files b2 -> J cf T b1 s snap -> J cf T b2 s snap.
+  Proof. unfold J. intros ->. auto. Qed.
+
+  Lemma consume_J T b s snap author tick chs b' s' :
+    J cf T b s snap -> T <= tick -> 0 <= tick < mark -> 0 <= author -> changes_pre snap chs = true ->
+    consume cf author tick false chs b s = Ok (b', s') ->
+    J cf tick b' s' (fold_left apply_change chs snap) /\ frame tick s s'.
+  Proof.
+    intros HJ HT Htick Ha Hpre E. unfold consume in E.
+    set (b1 := on_new_tick (mkBranch (b_files b) (b_merged b) (b_mauthor b) tick (b_prev b))) in *.
+    destruct (handle_changes cf author chs b1 s) as [[b2 s2]| |] eqn:E2; try discriminate.
+    injection E as <- <-.
+    assert (HJ1 : J cf T b1 s snap) by (apply (J_files T b); auto).
+    destruct (handle_changes_J cf author tick Htick Ha chs T b1 s snap b2 s2 HJ1 HT eq_refl Hpre E2) as (HJ2 & _ & F).
+    split; auto.
+  Qed.
+
+  Lemma J_init : J cf 0 branch0 shared0 [].
+  Proof.
+    split; [constructor|]. split; [constructor|]. split; [intros; reflexivity|]. split; [reflexivity|].
+    split; [intros p f []|]. split; [apply gh_ok_nil|]. split; [intros; reflexivity|intros p f []].
+  Qed.
+
+  Definition last_tick (T : Z) (cs : list lcommit) : Z := fold_left (fun _ c => lc_tick c) cs T.
+
+  Lemma last_tick_le : forall cs T e, T <= e -> (forall c, In c cs -> lc_tick c <= e) -> last_tick T cs <= e.
+  Proof.
+    induction cs as [|c r IH]; intros T e HT Hall; [exact HT|]. cbn [last_tick fold_left].
+    apply IH; [apply Hall; left; auto|intros; apply Hall; right; auto].
+  Qed.
+
+  (* the run: J at the end, nothing booked at a tick <= e by commits after e, keys only grow *)
+  Lemma lin_run_J : forall cs T b s snap b' s',
+    J cf T b s snap -> 0 <= T -> lin_wf T snap cs = true -> lin_run cf cs b s = Ok (b', s') ->
+    J cf (last_tick T cs) b' s' (snap_run cs snap) /\
+      (forall e P, (forall c, In c cs -> e < lc_tick c) -> (forall t k, e < t -> P t k = false) ->
+                   wsum P (s_gh s') = wsum P (s_gh s)) /\
+      (forall k, In k (keys (s_gh s)) -> In k (keys (s_gh s'))).
+  Proof.
+    induction cs as [|c r IH]; intros T b s snap b' s' HJ HT0 Hwf E.
+    - cbn in E. injection E as <- <-. split; auto.
+    - destruct (lin_wf_cons _ _ _ _ Hwf) as (W1 & W2 & W3 & W4 & W5).
+      cbn [lin_run] in E.
+      destruct (consume cf (lc_author c) (lc_tick c) false (lc_changes c) b s) as [[b1 s1]| |] eqn:E1; try discriminate.
+      assert (Htick : 0 <= lc_tick c < mark) by lia.
+      destruct (consume_J T b s snap _ _ _ b1 s1 HJ W1 Htick W3 W4 E1) as (HJ1 & F1).
+      destruct (IH (lc_tick c) b1 s1 (snap_commit snap c) b' s' HJ1 ltac:(lia) W5 E) as (HJ' & HF & HK).
+      split; [exact HJ'|]. split.
+      + intros e P Hall HP. rewrite (HF e P (fun x Hx => Hall x (or_intror Hx)) HP).
+        apply (proj1 F1). intros k. apply HP. apply Hall. left; auto.
+      + intros k Hk. apply HK. apply (proj2 F1). exact Hk.
+  Qed.
+
+  Lemma lin_run_app : forall pre suf b s, lin_run cf (pre ++ suf) b s =
+    match lin_run cf pre b s with Ok (b1, s1) => lin_run cf suf b1 s1 | e => e end.
+  Proof.
+    induction pre as [|c r IH]; intros suf b s; [reflexivity|]. cbn [app lin_run].
+    destruct (consume cf (lc_author c) (lc_tick c) false (lc_changes c) b s) as [[b1 s1]| |]; auto.
+  Qed.
+
+  Lemma lin_wf_lower : forall cs T snap, lin_wf T snap cs = true -> forall c, In c cs -> T <= lc_tick c.
+  Proof.
+    induction cs as [|c r IH]; intros T snap Hwf x Hin; [destruct Hin|].
+    destruct (lin_wf_cons _ _ _ _ Hwf) as (W1 & W2 & W3 & W4 & W5).
+    destruct Hin as [<-|Hin]; [lia|]. specialize (IH _ _ W5 x Hin). lia.
+  Qed.
+
+  Lemma lin_wf_app : forall pre suf T snap, lin_wf T snap (pre ++ suf) = true ->
+    lin_wf T snap pre = true /\ lin_wf (last_tick T pre) (snap_run pre snap) suf = true.
+  Proof.
+    induction pre as [|c r IH]; intros suf T snap Hwf.
+    - split; auto.
+    - cbn [app] in Hwf. destruct (lin_wf_cons _ _ _ _ Hwf) as (V1 & V2 & V3 & V4 & V5).
+      destruct (IH suf _ _ V5) as (W1 & W2).
+      split; [cbn [lin_wf]; rewrite W1, V4; repeat (apply andb_true_intro; split); auto; lia|exact W2].
+  Qed.
+
+  Lemma last_tick_nonneg : forall cs T snap, 0 <= T -> lin_wf T snap cs = true -> 0 <= last_tick T cs.
+  Proof.
+    induction cs as [|c r IH]; intros T snap HT Hwf; [exact HT|].
+    destruct (lin_wf_cons _ _ _ _ Hwf) as (V1 & V2 & V3 & V4 & V5). cbn [last_tick fold_left].
+    assert (H0 : 0 <= lc_tick c) by lia. exact (IH _ _ H0 V5).
+  Qed.
+
+  Lemma lin_split : forall cs T snap e, lin_wf T snap cs = true ->
+    exists pre suf, cs = pre ++ suf /\ (forall c, In c pre -> lc_tick c <= e) /\ (forall c, In c suf -> e < lc_tick c).
+  Proof.
+    induction cs as [|c r IH]; intros T snap e Hwf.
+    - exists [], []. split; auto. split; intros ? [].
+    - destruct (Z.le_gt_cases (lc_tick c) e) as [Hle|Hgt].
+      + destruct (lin_wf_cons _ _ _ _ Hwf) as (V1 & V2 & V3 & V4 & V5).
+        destruct (IH _ _ e V5) as (pre & suf & -> & H1' & H2').
+        exists (c :: pre), suf. split; auto. split; auto. intros x [<-|Hx]; auto.
+      + exists [], (c :: r). split; auto. split; [intros ? []|].
+        destruct (lin_wf_cons _ _ _ _ Hwf) as (V1 & V2 & V3 & V4 & V5).
+        intros x [<-|Hx]; [lia|]. pose proof (lin_wf_lower _ _ _ V5 x Hx). lia.
+  Qed.
+End Run.
+
+(* ---------- from the invariant to the dense matrix ---------- *)
+Lemma NoDup_nodup_zb l : NoDup l -> nodup_zb l = true.
+Proof.
+  induction 1 as [|x l Hn Hnd IH]; [reflexivity|]. cbn [nodup_zb]. rewrite IH, andb_true_r.
+  apply negb_true_iff. destruct (existsb (Z.eqb x) l) eqn:E; auto.
+  apply existsb_exists in E. destruct E as (y & Hy & Exy). apply Z.eqb_eq in Exy. subst. tauto.
+Qed.
+
+Lemma wsum_ext_keys P Q H : (forall t k, In t (keys H) -> P t k = Q t k) -> wsum P H = wsum Q H.
+Proof.
+  intros E. unfold wsum. f_equal. apply map_ext_in. intros [t row] Hin. cbn [fst snd].
+  unfold rsum. f_equal. apply map_ext. intros [k d]. cbn [fst snd]. rewrite E; auto.
+  unfold keys. change t with (fst (t, row)). apply in_map. auto.
+Qed.
+
+Lemma gh_ok_dense T H G S : gh_ok T H -> H <> [] -> 1 <= S -> 1 <= G ->
+  exists M last, group_sparse_history G S H (-1) = Ok (M, last) /\
+    (forall s b, 0 <= s <= last / S -> 0 <= b <= last / G ->
+       cell M s b = wsum (fun t k => (Z.quot t S <=? s) && (Z.quot k G =? b)) H) /\
+    (forall t, In t (keys H) -> 0 <= t <= last).
+Proof.
+  intros (K1 & K2 & K3) Hne HS HG.
+  set (last := last_z (sort_z (map fst H)) 0).
+  assert (Hmax : forall t, In t (keys H) -> 0 <= t <= last).
+  { intros t Ht. split; [apply (K3 t Ht)|]. unfold last. apply last_z_max; [apply sort_z_sorted|].
+    apply (Permutation.Permutation_in _ (sort_z_perm _)). exact Ht. }
+  assert (Hdl : dense_last H (-1) = last) by reflexivity.
+  destruct (C01_dense G S H (-1) HS HG Hne) as (M & EM & _ & _ & Hcell).
+  - apply NoDup_nodup_zb. exact K1.
+  - rewrite Hdl. unfold sparse_wfb. apply forallb_forall. intros tr Hin.
+    assert (Hk : In (fst tr) (keys H)) by (unfold keys; apply in_map; auto).
+    destruct (Hmax _ Hk). apply andb_true_intro. split; [apply andb_true_intro; split; lia|].
+    apply forallb_forall. intros kd Hkd. pose proof (K2 tr Hin kd Hkd). lia.
+  - rewrite Hdl in *. exists M, last. split; auto. split; auto.
+    intros s b Hs Hb. rewrite Hcell by auto. apply spec_cell_wsum.
+Qed.
+
+Lemma atotal_nonneg {V} (g : V -> Z) l : (forall v, 0 <= g v) -> 0 <= atotal g l.
+Proof. intros Hg. unfold atotal. induction l as [|x l IH]; [cbn; lia|]. cbn [map]. rewrite sum_z_cons. specialize (Hg (snd x)). lia. Qed.
+
+Lemma sum_atotal {V} (g : Z -> V -> Z) (l : list (Z * V)) (bs : list Z) :
+  sum_z (map (fun b => atotal (g b) l) bs) = atotal (fun v => sum_z (map (fun b => g b v) bs)) l.
+Proof.
+  unfold atotal. induction l as [|x l IH].
+  - cbn. induction bs as [|b r IHb]; [reflexivity|]. cbn [map]. rewrite sum_z_cons. cbn in *. lia.
+  - cbn [map]. rewrite sum_z_cons, <- IH. clear IH.
+    induction bs as [|b r IHb]; [reflexivity|]. cbn [map]. rewrite !sum_z_cons. lia.
+Qed.
+
+Lemma atotal_ext_in {V} (g1 g2 : V -> Z) (l : list (Z * V)) :
+  (forall kv, In kv l -> g1 (snd kv) = g2 (snd kv)) -> atotal g1 l = atotal g2 l.
+Proof. intros E. unfold atotal. f_equal. apply map_ext_in. auto. Qed.
+
+Definition sample_end (S sidx : Z) : Z := (sidx + 1) * S - 1.
+
+Theorem C01_linear : forall cf G S cs b s M last,
+  1 <= S -> 1 <= G -> lin_wf 0 [] cs = true -> lin_run cf cs branch0 shared0 = Ok (b, s) ->
+  group_sparse_history G S (s_gh s) (-1) = Ok (M, last) ->
+  forall sidx, 0 <= sidx <= last / S ->
+    (forall bidx, 0 <= bidx <= last / G -> 0 <= cell M sidx bidx) /\
+    (forall pre suf, cs = pre ++ suf ->
+       (forall c, In c pre -> lc_tick c <= sample_end S sidx) ->
+       (forall c, In c suf -> sample_end S sidx < lc_tick c) ->
+       sum_z (map (cell M sidx) (zrange (last / G + 1))) = stotal (snap_run pre [])).
+Proof.
+  intros cf G S cs b s M last HS HG Hwf Erun Egsh sidx Hsidx.
+  set (e := sample_end S sidx).
+  assert (He0 : 0 <= e) by (unfold e, sample_end; nia).
+  destruct (lin_run_J cf cs 0 branch0 shared0 [] b s (J_init cf) (Z.le_refl 0) Hwf Erun) as (HJend & _).
+  assert (Hne : s_gh s <> []).
+  { intros E0. rewrite E0 in Egsh. discriminate. }
+  destruct HJend as (_ & _ & _ & _ & _ & Hok & _).
+  destruct (gh_ok_dense _ (s_gh s) G S Hok Hne HS HG) as (M0 & last0 & E0 & Hcell & Hkeys).
+  rewrite Egsh in E0. injection E0 as <- <-.
+  (* the facts about a split at the end of the sample *)
+  assert (Hsplit : forall pre suf, cs = pre ++ suf -> (forall c, In c pre -> lc_tick c <= e) ->
+            (forall c, In c suf -> e < lc_tick c) ->
+            exists b1 s1, J cf (last_tick 0 pre) b1 s1 (snap_run pre []) /\
+              (forall bidx, 0 <= bidx <= last / G ->
+                 cell M sidx bidx = atotal (cnt cf (fun k => Z.quot k G =? bidx)) (b_files b1)) /\
+              (forall k, In k (keys (s_gh s1)) -> In k (keys (s_gh s)))).
+  { intros pre suf Ecs Hpre Hsuf. subst cs.
+    rewrite lin_run_app in Erun.
+    destruct (lin_run cf pre branch0 shared0) as [[b1 s1]| |] eqn:E1; try discriminate.
+    destruct (lin_wf_app pre suf 0 [] Hwf) as (W1 & W2).
+    destruct (lin_run_J cf pre 0 branch0 shared0 [] b1 s1 (J_init cf) (Z.le_refl 0) W1 E1) as (HJ1 & _).
+    pose proof (last_tick_le pre 0 e He0 Hpre) as HT1.
+    pose proof (last_tick_nonneg pre 0 [] (Z.le_refl 0) W1) as HT0.
+    destruct (lin_run_J cf suf _ b1 s1 _ b s HJ1 HT0 W2 Erun) as (_ & HF & HK).
+    exists b1, s1. split; [exact HJ1|]. split; [|exact HK].
+    intros bidx Hb. rewrite Hcell by auto.
+    rewrite (HF e _ Hsuf).
+    2:{ intros t k Ht. apply andb_false_iff. left. apply Z.leb_gt.
+        unfold e, sample_end in Ht. rewrite Z.quot_div_nonneg by lia.
+        assert (sidx + 1 <= t / S) by (apply Z.div_le_lower_bound; lia). lia. }
+    destruct HJ1 as (_ & _ & _ & _ & _ & (_ & _ & Hk1) & H71 & _).
+    rewrite <- H71. apply wsum_ext_keys. intros t k Ht. unfold Qk.
+    specialize (Hk1 t Ht).
+    assert (Z.quot t S <= sidx).
+    { rewrite Z.quot_div_nonneg by lia.
+      assert (t / S < sidx + 1); [|lia]. apply Z.div_lt_upper_bound; [lia|].
+      unfold e, sample_end in HT1. nia. }
+    destruct (Z.leb_spec (Z.quot t S) sidx); [reflexivity|lia]. }
+  split.
+  - intros bidx Hb. destruct (lin_split cs 0 [] e Hwf) as (pre & suf & Ecs & Hpre & Hsuf).
+    destruct (Hsplit pre suf Ecs Hpre Hsuf) as (b1 & s1 & _ & Hc & _).
+    rewrite Hc by auto. apply atotal_nonneg. intros f. apply count_nonneg.
+  - intros pre suf Ecs Hpre Hsuf.
+    destruct (Hsplit pre suf Ecs Hpre Hsuf) as (b1 & s1 & HJ1 & Hc & HK).
+    destruct HJ1 as (_ & _ & _ & J4 & _ & _ & _ & J8). rewrite J4.
+    rewrite (map_ext_in (cell M sidx) (fun bidx => atotal (cnt cf (fun k => Z.quot k G =? bidx)) (b_files b1))).
+    2:{ intros bidx Hb. apply zrange_in in Hb. apply Hc. lia. }
+    rewrite (sum_atotal (fun bidx f => cnt cf (fun k => Z.quot k G =? bidx) f)).
+    apply atotal_ext_in. intros [p f] Hin. cbn [snd]. unfold cnt, zrange, flen.
+    assert (0 <= last / G) by (apply Z.div_pos; [|lia]; destruct (s_gh s) as [|[t0 r0] l0] eqn:Eg; [congruence|];
+       specialize (Hkeys t0 (or_introl eq_refl)); lia).
+    rewrite (sum_bands (fun _ => true) (fun v => Z.quot (tp cf v) G) (f_vals f) 0).
+    + unfold count. clear. induction (f_vals f) as [|x l IH]; [reflexivity|]. cbn [filter length]. lia.
+    + intros v Hv _. specialize (J8 p f Hin v Hv). apply HK in J8. specialize (Hkeys _ J8).
+      rewrite Z.quot_div_nonneg by lia.
+      assert (0 <= tp cf v / G) by (apply Z.div_pos; lia).
+      assert (tp cf v / G <= last / G) by (apply Z.div_le_mono; lia). lia.
+Qed.
+
+Print Assumptions C01_linear.
